@@ -93,31 +93,33 @@ def Win.write (w : Win) (pos : Nat) (data : Bytes) : Nat × Win :=
   let data := data.take (w.size - pos)
   if data.isEmpty then (0, w) else (data.length, { w with F := overlay w.F (w.off + pos) data })
 
+/-- one iteration of the block loop of `DPFSLevel3.write_data` -/
+def dpWriteStep (dp : Dp) (sb fbo : Nat) (padded : Bytes) (acc : Except Err (Nat × Win)) (i : Nat) : Except Err (Nat × Win) :=
+  match acc with
+  | .error e => .error e
+  | .ok (tot, w) =>
+    let bs := dp.lv3.bs
+    let piece := slice padded (i * bs) bs
+    let piece := if i = 0 then piece.drop fbo else piece
+    match activeBit dp.lv2bits (sb + i) with
+    | none => .error .indexError
+    | some act =>
+      -- SubsectionIO window of size 2*size at lv3.offset: absolute seek clamps, write truncates
+      let winSize := dp.lv3.size * 2
+      let pos := min ((if act then dp.lv3.size else 0) + (sb + i) * bs + (if i = 0 then fbo else 0)) winSize
+      let piece := piece.take (winSize - pos)
+      let (n, w') := w.write (dp.lv3.offset + pos) piece
+      .ok (tot + n, w')
+
 /-- `DPFSLevel3.write_data(offset, data)`: returns bytes written and the new file -/
 def dpWrite (w : Win) (dp : Dp) (offset : Nat) (data : Bytes) : Except Err (Nat × Win) :=
   let data := if offset + data.length > dp.lv3.size then data.take (dp.lv3.size - offset) else data
   if data.isEmpty then .ok (0, w)
   else
     let bs := dp.lv3.bs
-    let sb := offset / bs
     let fbo := offset % bs
     let padded := zeros fbo ++ data
-    let nblk := (padded.length + bs - 1) / bs
-    (List.range nblk).foldl (fun (acc : Except Err (Nat × Win)) i =>
-      match acc with
-      | .error e => .error e
-      | .ok (tot, w) =>
-        let piece := slice padded (i * bs) bs
-        let piece := if i = 0 then piece.drop fbo else piece
-        match activeBit dp.lv2bits (sb + i) with
-        | none => .error .indexError
-        | some act =>
-          -- SubsectionIO window of size 2*size at lv3.offset: absolute seek clamps, write truncates
-          let winSize := dp.lv3.size * 2
-          let pos := min ((if act then dp.lv3.size else 0) + (sb + i) * bs + (if i = 0 then fbo else 0)) winSize
-          let piece := piece.take (winSize - pos)
-          let (n, w') := w.write (dp.lv3.offset + pos) piece
-          .ok (tot + n, w')) (.ok (0, w))
+    (List.range ((padded.length + bs - 1) / bs)).foldl (dpWriteStep dp (offset / bs) fbo padded) (.ok (0, w))
 
 /-! ### IVFC hash tree -/
 
